@@ -116,9 +116,28 @@ def _hoist_record_methods(trees, recs, changed, report, unknown=None):
             for n in ast.walk(t):
                 if isinstance(n, ast.Attribute) and n.attr in names and id(n) not in callf:
                     clash = True
+        typed_only = False
         if clash:
-            del recs[K]
-            continue
+            # the method names also exist elsewhere: only calls on receivers that visibly hold a K are rewritten
+            # (a local assigned from a construction, an annotated parameter, `self` inside the class); every other
+            # `.m(..)` in the package is something else's method -- unless a K could reach it untracked, which the
+            # escape check of lower_records rules out afterwards (the record is then not lowered and the class,
+            # now without methods, would be wrong): so require that every construction is bound to a plain local
+            typed_only = True
+            pm_all = {}
+            for t in trees.values():
+                for n in ast.walk(t):
+                    for c in ast.iter_child_nodes(n):
+                        pm_all[id(c)] = n
+            for t in trees.values():
+                for n in ast.walk(t):
+                    if isinstance(n, ast.Call) and isinstance(n.func, ast.Name) and n.func.id == K:
+                        par = pm_all.get(id(n))
+                        if not ((isinstance(par, ast.Assign) and par.value is n and len(par.targets) == 1 and isinstance(par.targets[0], ast.Name)) or (isinstance(par, ast.Attribute) and par.value is n)):
+                            typed_only = None
+            if typed_only is None:
+                del recs[K]
+                continue
         tree = trees[info["rel"]]
         cnode = info["node"]
         new_funcs = []
@@ -146,10 +165,23 @@ def _hoist_record_methods(trees, recs, changed, report, unknown=None):
             new_funcs.append((g, kind, m.name))
         kinds = {n: k for _, k, n in new_funcs}
         for rel, t in trees.items():
+            holders = None
+            if typed_only:
+                # per function: locals assigned from a construction of K, parameters annotated K
+                holders = {}
+                for q_, fn_, cls_ in functions_of(t):
+                    hs = {a_.arg for a_ in fn_.args.args + fn_.args.kwonlyargs if _ann_is(a_.annotation, K)}
+                    for x in ast.walk(fn_):
+                        if isinstance(x, ast.Assign) and len(x.targets) == 1 and isinstance(x.targets[0], ast.Name) and isinstance(x.value, ast.Call) and ((isinstance(x.value.func, ast.Name) and x.value.func.id == K) or (isinstance(x.value.func, ast.Attribute) and isinstance(x.value.func.value, ast.Name) and x.value.func.value.id == K)):
+                            hs.add(x.targets[0].id)
+                    for x in ast.walk(fn_):
+                        holders[id(x)] = hs
             for n in ast.walk(t):
                 if isinstance(n, ast.Call) and isinstance(n.func, ast.Attribute) and n.func.attr in names:
                     recv = n.func.value
                     mname = n.func.attr
+                    if typed_only and not ((isinstance(recv, ast.Name) and recv.id in holders.get(id(n), ())) or (isinstance(recv, ast.Call) and isinstance(recv.func, ast.Name) and recv.func.id == K) or (isinstance(recv, ast.Name) and recv.id == K and kinds[mname] != "method")):
+                        continue
                     if kinds[mname] == "method":
                         n.args = [recv] + list(n.args)
                     elif not (isinstance(recv, ast.Name) and recv.id in (K, "cls", "self")):
